@@ -60,6 +60,13 @@ def patterns(ctx):
         n = rg.choice([5, 5, 6, 7])
         dens = rg.choice([0.15, 0.3, 0.5])
         yield n, [(i, j) for i in range(n) for j in range(n) if i != j and rg.random() < dens]
+    # random SYMMETRIC graphs on 8..24 vertices (first-pass Ruge-Stuben must be independent and dominating on them)
+    rs_ = ctx.sub('symmetric-large')
+    for t in range(150 if not ctx.thorough else 2500):
+        n = rs_.choice([8, 10, 12, 16, 20, 24])
+        dens = rs_.choice([0.12, 0.25, 0.4])
+        und = [(i, j) for i in range(n) for j in range(i + 1, n) if rs_.random() < dens]
+        yield n, und + [(j, i) for i, j in und]
 
 
 def csr_pair(n, arcs):
@@ -157,6 +164,8 @@ def run(ctx):
                 S.data[:] = np.where(rows_of < S.indices, 1.0, np.where(rows_of > S.indices, -1.0, 1.0))
             else:
                 S.data[:] = [rng.choice([0.5, -0.25, 2.0, -3.0, 1.0]) for _ in range(S.nnz)]
+            if diag and k % 3 == 0:
+                S.data[rows_of == S.indices] = 0.0      # a diagonal that is STORED but zero (e.g. after S.setdiag(0))
             cs = dict(base, diag=diag, values='antisymmetric' if signed else 'random')
             ctx.mark(cs)
             oracle(ctx, 'RS', n, arcs, split.RS(S), cs, indep_dom=sym)
